@@ -14,9 +14,10 @@
        groupBitOr is the bitwise OR over the group;
      - SELECT aliases are visible in WHERE / GROUP BY / ORDER BY and win over columns of the same name;
      - arrayExists(x -> c, arr) binds x.1, x.2 to the tuple elements; splitByChar(':', s)[k] is 1-based.
+     - a spliced decimal numeral (Raw "123") is the integer it prints (lib/DecN.v: Z_of_dec inverts the printer).
    Executable definitions only. *)
 From Coq Require Import List ZArith NArith String Ascii Bool.
-From Qryn Require Import lib.Strs model.Sql model.Logql model.LogqlPlan model.PromSelect.
+From Qryn Require Import lib.Strs lib.DecN model.Sql model.Logql model.LogqlPlan model.PromSelect.
 Import ListNotations.
 Open Scope string_scope.
 
@@ -109,6 +110,7 @@ Section EVAL.
     | StrV s => Some (VS s)
     | IntV z => Some (VI z)
     | DateV d => Some (VI d)                              (* a Date column compared with 'YYYY-MM-DD' *)
+    | Raw s => omap VI (Z_of_dec s)                       (* a spliced decimal numeral (the fingerprints of labelsGetter's IN list) *)
     | LOp fn cl => match all_some (evl cl) with Some vs => lop_apply fn vs | None => None end
     | In l r =>
       match ev rho l with
@@ -311,6 +313,32 @@ Section MAIN.
     end.
 End MAIN.
 
+(* ---- the labels request of labelsGetter:
+     SELECT fingerprint, JSONExtractKeysAndValues(labels, 'String') as labels FROM time_series WHERE fingerprint IN (..) and date >= .. and date <= ..
+   over the rows of time_series.  The second column is read as the label pairs of the row's document (the decoding of the
+   stored JSON document is not this property's subject: t_labels is the decoded document). ---- *)
+Definition ts_row_env (r : tsrow) : env := fun n =>
+  if String.eqb n "date" then Some (VI (t_date r))
+  else if String.eqb n "fingerprint" then Some (VI (Z.of_N (t_fp r)))
+  else if String.eqb n "type" then Some (VI (t_type r))
+  else None.
+Definition labels_cols : list expr :=
+  [Id "fingerprint"; Col (Fn "JSONExtractKeysAndValues" [Id "labels"; StrV "String"]) "labels"].
+Definition cols_eqb_labels (cols : list expr) : bool :=
+  match cols with
+  | [Id f; Col (Fn j [Id l; StrV t]) a] =>
+    String.eqb f "fingerprint" && String.eqb j "JSONExtractKeysAndValues" && String.eqb l "labels" && String.eqb t "String" && String.eqb a "labels"
+  | _ => false
+  end.
+Definition eval_fetch (re_match : string -> string -> bool) (q : select) (series : list tsrow) : option (list fetch_row) :=
+  match s_where q, s_groupby q, s_having q, s_limit q with
+  | Some w, [], None, None =>
+    if cols_eqb_labels (s_cols q)
+    then Some (map (fun r => (t_fp r, t_labels r)) (filter (fun r => is_true (ev re_match no_cte (ts_row_env r) w)) series))
+    else None
+  | _, _, _, _ => None
+  end.
+
 (* ================= list-function readings (what the theorems are stated over) ================= *)
 Section READING.
   Variable re_match : string -> string -> bool.
@@ -382,6 +410,20 @@ Section READING.
       match bucket_series start step r with
       | s' :: r' => if Z.eqb (fst s') b then s' :: r' else (b, snd s) :: s' :: r'
       | [] => [(b, snd s)]
+      end
+    end.
+  (* the same over the whole row list of the statement (rows ordered by fingerprint, then time): adjacent rows of one
+     fingerprint and one bucket collapse into the last of them, stamped with the bucket's end *)
+  Fixpoint bucket_rows (start step : Z) (l : list row) : list row :=
+    match l with
+    | [] => []
+    | r :: rest =>
+      let b := bucket_of start step (r_ts r) in
+      match bucket_rows start step rest with
+      | r' :: rest' =>
+        if N.eqb (r_fp r') (r_fp r) && Z.eqb (r_ts r') b then r' :: rest'
+        else {| r_fp := r_fp r; r_val := r_val r; r_ts := b |} :: r' :: rest'
+      | [] => [{| r_fp := r_fp r; r_val := r_val r; r_ts := b |}]
       end
     end.
   (* range-vector functions with Step > Range: only samples whose timestamp modulo Step is 0 or at least Step - Range *)
